@@ -17,6 +17,7 @@ typedef struct _ev_priv evt_priv_t;
 typedef struct {
     int fd;                                 // the descriptor that gets polled (a private duplicate with M_SRC_DUP)
     int key;                                // the descriptor the source was registered with: identifies the source
+    bool close_key;                         // M_SRC_DUP + M_SRC_FD_AUTOCLOSE: the user's descriptor is to be closed too
 } fd_src_t;
 
 /* Struct that holds timers to self_t mapping for poll plugin */
